@@ -298,7 +298,27 @@ func DrawProfile(property, tier string, r *PRNG) *Profile {
 			p.Name += "/roles"
 		}
 	}
+	p.PChain = Pick(r, []float64{0, 0.3, 0.6})
+	p.PRetry = Pick(r, []float64{0, 0.4, 0.8})
+	if p.PChain > 0 && p.PMulti < 0.1 && r.Chance(0.5) {
+		p.PMulti = 0.15
+	}
+	if property != "C20" && r.Chance(0.12) {
+		// scripted clients: most txs are small scripts (create something and use it in the same tx), they
+		// often fail part-way for want of gas or on a bank error, and the client then submits them again
+		p.PMulti, p.PChain, p.PRetry = 0.55, 0.9, 0.9
+		p.PGas = Pick(r, []float64{0.2, 0.35})
+		p.PBank = Pick(r, []float64{0.05, 0.12})
+		p.PStale = Pick(r, []float64{0, 0.2})
+		core("CreateBatch", "BasketCreate", "Put", "Take", "Sell", "Send")
+		scale(p.Weights, []string{"CreateBatch", "Put", "Take"}, 2.5)
+		if p.Actors > 4 {
+			p.Actors = r.Range(2, 4)
+		}
+		p.Name += "/scripted"
+	}
 	if faultFree && property != "C10" && property != "C09" {
+		p.PChain, p.PRetry = 0, 0
 		p.PGas, p.PBank, p.PMulti, p.PDelay, p.PDup, p.PDrop, p.PCrash, p.PTorn, p.PRestart, p.PGenesis = 0, 0, 0, 0, 0, 0, 0, 0, 0, 0
 		p.Name += "/faultfree"
 	}
